@@ -315,6 +315,14 @@ func (d *duplexHTTPCall) makeRequest() {
 		d.SetError(err)
 		return
 	}
+	if response.StatusCode == http.StatusSwitchingProtocols {
+		// We never ask for a protocol switch. For a 101 response net/http hands
+		// over the connection itself as the body and stops watching the context:
+		// nothing that reads or drains it would be interrupted when the context
+		// ends. There's nothing for us to read there.
+		_ = response.Body.Close()
+		response.Body = http.NoBody
+	}
 	d.response = response
 	if err := d.validateResponse(response); err != nil {
 		d.SetError(err)
